@@ -1222,11 +1222,11 @@ class SetElement(ContentElement):
     '''
     def process_lang_attribute(self, parent_ctx: TTMLElement.ParsingContext, xml_elem):
       # <set> ignores xml:lang
-      pass
+      self.lang = parent_ctx.lang
 
     def process_space_attribute(self, parent_ctx: TTMLElement.ParsingContext, xml_elem):
       # <set> ignores xml:space
-      pass
+      self.space = parent_ctx.space
 
   qn = f"{{{xml_ns.TTML}}}set"
   has_region = False
